@@ -52,7 +52,7 @@ def backward_cases(ctx, n2=None):
             if op.startswith("max") and gi % 2 == 0:
                 data = (("ints",) + cc.TIE_KINDS)[(gi // 2) % 6]           # repeated values: ties inside windows
             P = cc.make_payload(rng, op, g, bias=(k % 2 == 0), form="tuple" if k % 3 else "int", data=data, layout=cc.LAYOUTS[gi % 8],
-                                dtypes=cc.DTYPES[(gi // 8) % 4])
+                                dtypes=cc.DTYPES[(gi // 8) % 4], zero_bias=(gi % 7 == 3))
             if P["form"] == "int" and (g["kH"], g["sH"], g["pH"], g["dH"]) != (g["kW"], g["sW"], g["pW"], g["dW"]):
                 P["form"] = "tuple"
             cases.append((P, (op,) + cc.descr2(g), cc.nontrivial2(g), data))
@@ -60,7 +60,7 @@ def backward_cases(ctx, n2=None):
         for op in OPS1:
             k += 1
             data = (("ints",) + cc.TIE_KINDS)[(gi // 2) % 6] if (op.startswith("max") and gi % 2 == 0) else "distinct"
-            P = cc.make_payload(rng, op, g, bias=(k % 2 == 0), data=data, layout=cc.LAYOUTS[gi % 8], dtypes=cc.DTYPES[(gi // 8) % 4])
+            P = cc.make_payload(rng, op, g, bias=(k % 2 == 0), data=data, layout=cc.LAYOUTS[gi % 8], dtypes=cc.DTYPES[(gi // 8) % 4], zero_bias=(gi % 7 == 3))
             cases.append((P, (op, g["k"], g["s"], g["p"], g["d"], g["W"]), cc.nontrivial1(g), data))
     return cases, len(g2), len(g1)
 
@@ -378,7 +378,7 @@ def run_part_c14(ctx):
         for op, data in (("conv2d", "distinct"), ("max_pool2d", "distinct"), ("avg_pool2d", "distinct"), ("max_pool2d", cc.TIE_KINDS[gi % 5])):
             k += 1
             P = cc.make_payload(rng, op, g, bias=(k % 2 == 0), form="int" if k % 2 else "tuple", data=data, layout=cc.LAYOUTS[gi % 8],
-                                dtypes=cc.DTYPES[(gi // 8) % 4])
+                                dtypes=cc.DTYPES[(gi // 8) % 4], zero_bias=(gi % 7 == 3))
             d = (op, data) + cc.descr2(g)
             comp = compose_conv if op == "conv2d" else compose_pool
             rf = cc.call(cc.run_impl, P)
